@@ -256,6 +256,13 @@ def unitsOf (i : Operand K) (coerced : Option (UnitR K)) : Option (UnitR K) :=
   | .unyt _ u _ => some u
   | _ => coerced
 
+/-- `u = Unit(registry=…)` for an operand without units (array.py:1859-1862) -/
+def defaultUnit (o : Option (UnitR K)) : UnitR K :=
+  match o with | some u => u | none => UnitR.null
+
+/-- the unit `__array_ufunc__` works with for input `i` once it has been coerced to `coerced` -/
+def resolved (i : Operand K) (coerced : Option (UnitR K)) : UnitR K := defaultUnit (unitsOf i coerced)
+
 /-! ## §4 the unit rules -/
 
 /-- `repr(unit)` of a unit that came out of the table by name -/
@@ -486,8 +493,8 @@ def mulDivPost (rule : Rule) (u0 u1 : UnitR K) (mul : K) (unit : Option (UnitV K
 /-- array.py:1859-1862 unit defaulting, 1893-1901 K/R refusal, 1903-1992 for every ufunc but `power` -/
 def stdBinary (C : Ctx K) (c : Call K) (rule : Rule) (i0 i1 : Operand K)
     (u0r u1r : Option (UnitR K)) (eff0 : List (Effect K)) : Run K :=
-  let u0 : UnitR K := match u0r with | some u => u | none => UnitR.null
-  let u1 : UnitR K := match u1r with | some u => u | none => UnitR.null
+  let u0 : UnitR K := defaultUnit u0r
+  let u1 : UnitR K := defaultUnit u1r
   -- K/R plus an offset unit
   if rule == .preserve && isTemperature u0.v && u1.v.offset != 0 && u0.v.offset == 0
       && (u0.repr == "K" || u0.repr == "R") then ⟨eff0, .error .UnitOperationError⟩
@@ -524,7 +531,7 @@ def stdBinary (C : Ctx K) (c : Call K) (rule : Rule) (i0 i1 : Operand K)
 /-- array.py:1863-1890: `power` reads its exponent from the second operand -/
 def powerPath (C : Ctx K) (c : Call K) (i0 i1 : Operand K) (u0r c1 : Option (UnitR K))
     (eff0 : List (Effect K)) : Run K :=
-  let u0 : UnitR K := match u0r with | some u => u | none => UnitR.null
+  let u0 : UnitR K := defaultUnit u0r
   -- `isinstance(u1, unyt_array) and not u1.units.is_dimensionless` on the coerced second operand
   let expHasDims : Bool := match c1 with | some u => !(u.v.isDimensionless) | none => false
   let d0 := i0.data
